@@ -242,6 +242,9 @@ class Circuit:
             switch_list_1 = np.arange(self._num_modes)
             switch_list_2 = np.arange(self._num_modes)
             switch_list_1[[0, t1]] = switch_list_1[[t1, 0]]
+            # the second swap acts on the already switched state: if the second mode was
+            # sitting at index 0 the first swap has moved it to index t1
+            t2 = t1 if t2 == 0 else t2
             switch_list_2[[1, t2]] = switch_list_2[[t2, 1]]
 
             self._state = self._state.transpose(switch_list_1)
